@@ -233,7 +233,7 @@ def run(ctx):
                     dis.append({"what": "Nt.parseLine (model) vs NtTriplesYielder", "line": line, "model": ml, "impl": got})
                     if len(dis) > 20:
                         break
-    base.fragment_s_tie(ctx, dis, stats, ['remove_corners', 'decide_literal_type'])
+    base.fragment_s_tie(ctx, dis, stats, ['remove_corners', 'decide_literal_type', 'there_is_arroba_after_last_quotes'])
     return base.std_result(ctx, cases, viol, dis, base.known_lines(kf, hit), stats, sum(1 for st, _, _ in cases if st[2][0] == 'L' and len(st[2][1]) > 0), [],
                            "single-line N-Triples statements: literal contents = every string of <= %d atoms over a %d-atom adversarial alphabet "
                            "(escaped quote, escaped backslash, '@', '^^', '#', ' .', '<', '>', 'xsd:', 'geo:', digits, '_', non-ASCII, \\\\uXXXX, ';', ',') x "
